@@ -20,6 +20,7 @@ def jobs(tier):
             if any(re.match(p, j.name) for p in pats):
                 j.name = prefix + "." + j.name
                 j.canary = False
+                j.imported = True
                 J.append(j)
     take(C15, [r"(free|cell|matrix|z0\.op[0-5])\.r_max2_f_max2_pa(2_ma4_fa2|0_ma0_fa2)_fz0[01]$",
                r"add_frequency\.", r"resize\..*rows2_columns2_freqs2_pa2_ma4_fa2_fz01_new_rows3_new_columns3_new_freqs3$"], "vnadata")
